@@ -10,5 +10,6 @@ tools/translate/target/release/lv-translate "$(readlink -f repo-link)" lean/Lora
 # (a module that does not build is reported by its own check, not here)
 MODS=$(python3 -c "import json,glob;print(' '.join(sorted({json.load(open(f))['lean_module'] for f in glob.glob('props/C*.json')})))")
 (cd lean && lake build $MODS) || true
-(cd harness && cargo build --release --offline)
+# builds the harness against repo-link and records the content hash of the sources it was built from
+./check --build-harness
 echo setup-done
